@@ -11,6 +11,10 @@ prints one JSON summary line; removes the scratch worktree.
 import json, os, subprocess, sys, shutil, re
 
 ENV = dict(os.environ, GOFLAGS="-mod=mod", GOPROXY="off", GOSUMDB="off")
+# VERIF_REPO: the repository copy the checks build from (default /repo); the
+# checks are run from the /verif copy this script lives in
+REPO = os.environ.get("VERIF_REPO", "/repo")
+VERIF = os.path.dirname(os.path.dirname(os.path.abspath(__file__)))
 BASE = json.load(open("/root/.vp/BASELINE.json"))["stable_pass"]
 
 
@@ -91,29 +95,30 @@ def main():
     if checks is None:
         checks = [meta.get("property")]
     # run the checks against /repo with the patch applied
-    rc, out = sh("git -C /repo status --porcelain")
+    rc, out = sh(f"git -C {REPO} status --porcelain")
     if out.strip():
-        res["error"] = "/repo not clean"
+        res["error"] = f"{REPO} not clean"
         print(json.dumps(res)); return
-    rc, out = sh(f"git -C /repo apply {patch}")
+    rc, out = sh(f"git -C {REPO} apply {patch}")
     if rc != 0:
-        rc, out = sh(f"git -C /repo apply --3way {patch}")
-        sh("git -C /repo reset -q")
-    before = set(os.listdir("/verif/replays"))
+        rc, out = sh(f"git -C {REPO} apply --3way {patch}")
+        sh(f"git -C {REPO} reset -q")
+    os.makedirs(f"{VERIF}/replays", exist_ok=True)
+    before = set(os.listdir(f"{VERIF}/replays"))
     try:
         res["checks"] = {}
         for c in checks:
-            rc, out = sh(f"./check {c} {tier}", cwd="/verif", timeout=7200)
+            rc, out = sh(f"./check {c} {tier}", cwd=VERIF, timeout=7200)
             vl = [l for l in out.split("\n") if l.startswith(("VIOLATION", "violation class", "HARNESS-ERROR", "KNOWN-FINDING"))]
             res["checks"][c] = {"rc": rc, "lines": [l[:300] for l in vl[:8]]}
     finally:
-        sh("git -C /repo checkout -- . && git -C /repo clean -fdq")
+        sh(f"git -C {REPO} checkout -- . && git -C {REPO} clean -fdq")
         # evidence and replay files written against the changed tree are not kept
-        sh("git -C /verif checkout -- evidence")
+        sh(f"git -C {VERIF} checkout -- evidence")
         keep = os.path.join("/tmp/mw/replays", name)
         os.makedirs(keep, exist_ok=True)
-        for f in set(os.listdir("/verif/replays")) - before:
-            shutil.move(os.path.join("/verif/replays", f), os.path.join(keep, f))
+        for f in set(os.listdir(f"{VERIF}/replays")) - before:
+            shutil.move(os.path.join(f"{VERIF}/replays", f), os.path.join(keep, f))
     print(json.dumps(res))
 
 
